@@ -9,6 +9,7 @@ import (
 	"strings"
 
 	mcap "github.com/foxglove/mcap/go/mcap"
+	"github.com/pierrec/lz4/v4"
 
 	"verif/harness/explore"
 	"verif/harness/model"
@@ -38,13 +39,20 @@ type Config struct {
 	ChunkSize   int64
 	Compression string
 	Level       int
-	Custom      int // 0 none, 1 xor codec registered as "xor1", 2 xor codec registered under the name "zstd"
+	Custom      int // 0 none, 1 xor codec registered as "xor1", 2 xor codec registered under the name "zstd", 3 a caller-supplied real lz4 codec registered as "lz4"
+	AttKind     int // how attachment data is supplied: 0 bytes.Reader (has WriteTo), 1 plain reader with small reads, 2 plain reader returning its last bytes together with io.EOF
 }
 
 func (c Config) String() string {
 	s := fmt.Sprintf("flags=%010b crc=%v", c.Flags, c.CRC)
 	if !c.Chunked {
+		if c.AttKind != 0 {
+			s += fmt.Sprintf(" attsrc=%d", c.AttKind)
+		}
 		return s + " unchunked"
+	}
+	if c.AttKind != 0 {
+		s += fmt.Sprintf(" attsrc=%d", c.AttKind)
 	}
 	return s + fmt.Sprintf(" chunk=%d comp=%q level=%d custom=%d", c.ChunkSize, c.Compression, c.Level, c.Custom)
 }
@@ -75,6 +83,8 @@ func (c Config) Options() *mcap.WriterOptions {
 		o.Compressor = mcap.NewCustomCompressor("xor1", &XorWriter{})
 	case 2:
 		o.Compressor = mcap.NewCustomCompressor("zstd", &XorWriter{})
+	case 3:
+		o.Compressor = mcap.NewCustomCompressor("lz4", lz4.NewWriter(nil))
 	}
 	return o
 }
@@ -86,6 +96,8 @@ func (c Config) CompressionName() string {
 		return "xor1"
 	case 2:
 		return "zstd"
+	case 3:
+		return "lz4"
 	}
 	return c.Compression
 }
@@ -105,6 +117,8 @@ func (c Config) Decompressors() map[mcap.CompressionFormat]mcap.ResettableReader
 		return map[mcap.CompressionFormat]mcap.ResettableReader{"xor1": &XorReader{}}
 	case 2:
 		return map[mcap.CompressionFormat]mcap.ResettableReader{"zstd": &XorReader{}}
+	case 3:
+		return map[mcap.CompressionFormat]mcap.ResettableReader{"lz4": &LZ4Reader{r: lz4.NewReader(nil)}}
 	}
 	return nil
 }
@@ -146,6 +160,40 @@ func (x *XorWriter) Write(p []byte) (int, error) {
 }
 func (x *XorWriter) Close() error     { return nil }
 func (x *XorWriter) Reset(w io.Writer) { x.w = w }
+
+// LZ4Reader is a caller-supplied decompressor for the real lz4 format.
+type LZ4Reader struct{ r *lz4.Reader }
+
+func (l *LZ4Reader) Read(p []byte) (int, error) { return l.r.Read(p) }
+func (l *LZ4Reader) Reset(r io.Reader) error    { l.r.Reset(r); return nil }
+
+// PlainReader hides every optional interface of a reader; Chunk limits the bytes per Read and
+// WithEOF makes the final Read return its data together with io.EOF.
+type PlainReader struct {
+	B       []byte
+	Chunk   int
+	WithEOF bool
+	off     int
+}
+
+func (p *PlainReader) Read(b []byte) (int, error) {
+	if p.off >= len(p.B) {
+		return 0, io.EOF
+	}
+	n := len(b)
+	if p.Chunk > 0 && n > p.Chunk {
+		n = p.Chunk
+	}
+	if n > len(p.B)-p.off {
+		n = len(p.B) - p.off
+	}
+	copy(b, p.B[p.off:p.off+n])
+	p.off += n
+	if p.WithEOF && p.off == len(p.B) {
+		return n, io.EOF
+	}
+	return n, nil
+}
 
 // XorReader is the matching caller-supplied decompressor.
 type XorReader struct{ r io.Reader }
@@ -201,7 +249,7 @@ type compMode struct {
 	custom int
 }
 
-var compModes = []compMode{{"", 0}, {"zstd", 0}, {"lz4", 0}, {"", 1}, {"", 2}, {"lz4", 1}}
+var compModes = []compMode{{"", 0}, {"zstd", 0}, {"lz4", 0}, {"", 1}, {"", 2}, {"lz4", 1}, {"", 3}}
 
 // ChooseK2 enumerates sub-product K2: compression x level x custom codec x chunk size x 16 flag settings x CRC.
 func ChooseK2(x *explore.Ctx, levels []int, sizes []int64) Config {
@@ -334,6 +382,12 @@ func Write(c *model.Content, cfg Config, sink io.Writer, src AttSource) (res *Re
 			err = w.WriteMessage(GoMessage(o.M))
 		case model.KAttachment:
 			var r io.Reader = bytes.NewReader(o.A.Data)
+			switch cfg.AttKind {
+			case 1:
+				r = &PlainReader{B: o.A.Data, Chunk: 7}
+			case 2:
+				r = &PlainReader{B: o.A.Data, WithEOF: true}
+			}
 			size := uint64(len(o.A.Data))
 			if src != nil {
 				r, size = src(o.A)
